@@ -255,7 +255,12 @@ impl Substream {
             substream,
             codec,
             substream_id,
-            read_buffer: BytesMut::zeroed(1024),
+            // An identity frame is read straight into `read_buffer[..payload_size]`, so the
+            // buffer has to hold a whole frame from the start.
+            read_buffer: BytesMut::zeroed(match codec {
+                ProtocolCodec::Identity(payload_size) => payload_size,
+                _ => 1024,
+            }),
             offset: 0usize,
             pending_frames: VecDeque::new(),
             current_frame_size: None,
